@@ -355,11 +355,13 @@ Definition is_some {A} (o : option A) : bool := match o with Some _ => true | No
 (* reindex of one array onto the frame's rows (Series.reindex, series.py:792-841; the per-block
    branch of TypeBlocks.resize_blocks, type_blocks.py:684-695; full_for_fill, util.py:510-535):
    equal index -> unchanged; all rows found -> selection, dtype kept; otherwise resolved dtype, fill *)
+Definition covers (rows sidx : list L) : bool := forallb (fun r => mem r sidx) rows.   (* ic.is_subset *)
+
 Definition align (rows sidx : list L) (dt : dtype) (vals : list V) (fill : V) (fdt : dtype) : col :=
   if list_eqb leq rows sidx then (dt, vals)
   else
     let found := map (fun r => lookup r sidx vals) rows in
-    if forallb is_some found
+    if covers rows sidx
     then (dt, flat_map (fun o => match o with Some x => [x] | None => [] end) found)
     else let d := resolve dt fdt in
          (d, map (fun o => match o with Some x => cast d x | None => cast d fill end) found).
@@ -409,7 +411,7 @@ Definition blk_align (rows fidx : list L) (fill : V) (fdt : dtype) (b : blk) : b
   if list_eqb leq rows fidx then b
   else
     let cs := map (fun c => align rows fidx (b_dt b) c fill fdt) (b_cols b) in
-    let d := if forallb (fun r => is_some (index_of r fidx 0)) rows then b_dt b else resolve (b_dt b) fdt in
+    let d := if covers rows fidx then b_dt b else resolve (b_dt b) fdt in
     mk_blk d (b_2d b) (zlen rows) (map snd cs).
 
 Definition S_step (f : sfr) (op : gop) : sfr * outcome :=
@@ -605,3 +607,15 @@ Arguments OExtSeries {L V}.
 Arguments OExtFrame {L V}.
 Arguments OExtOther {L V}.
 Arguments ORead {L V}.
+Arguments g_lm {L}. Arguments g_map {L}. Arguments g_cnt {L}. Arguments g_recache {L}.
+Arguments g_arr {L}. Arguments g_npos {L}.
+Arguments io_labels {L}. Arguments io_npos {L}. Arguments io_locs {L}.
+Arguments b_dt {V}. Arguments b_2d {V}. Arguments b_rows {V}. Arguments b_cols {V}.
+Arguments t_blocks {V}. Arguments t_index {V}. Arguments t_dtypes {V}. Arguments t_rows {V}.
+Arguments t_ncols {V}. Arguments t_rowdt {V}.
+Arguments f_rows {L V}. Arguments f_cols {L V}. Arguments f_tb {L V}.
+Arguments s_rows {L V}. Arguments s_labels {L V}. Arguments s_cols {L V}.
+Arguments fo_labels {L V}. Arguments fo_npos {L V}. Arguments fo_cols {L V}.
+Arguments fo_shape {L V}. Arguments fo_readable {L V}.
+Arguments blk_width {V}. Arguments blk_flat {V}. Arguments tb_flat {V}.
+Arguments M_refresh {L}. Arguments zlen {A}. Arguments is_ok {A}. Arguments znth {A}.
